@@ -11,6 +11,7 @@ from ..core import rule
 from ..program import AnalysisError, dotted, src
 from ..core import walk_local  # inline-aware
 from .common import where
+from ..dataflow import DefUse, origins
 
 CALDAV = "xandikos.caldav"
 ICAL = "xandikos.icalendar"
@@ -485,3 +486,62 @@ def z1(ctx):
 def i2(ctx):
     from .c10 import x10
     return x10(ctx)
+
+
+@rule("C11", "F1", floor=3, kind="S",
+      desc="the naive evaluator answers from the parsed calendar: CalendarFilter.check says 'no match' only because the "
+           "file is no calendar, a child filter does not match, or a required property is missing - never from a test "
+           "on the raw bytes (escaped and folded text is not found there)")
+def f1(ctx):
+    fi = ctx.own_method(ICAL + ".CalendarFilter", "check")
+    cfg = ctx.cfg(fi)
+    du = DefUse(cfg)
+    file_param = fi.params[2] if len(fi.params) > 2 else "file"
+    obs = []
+
+    def allowed(t) -> bool:
+        if isinstance(t, ast.Call):
+            d = dotted(t.func) or ""
+            if d == "isinstance" and t.args and isinstance(t.args[0], ast.Name) and t.args[0].id == file_param:
+                return True
+            if isinstance(t.func, ast.Attribute) and t.func.attr in ("match", "match_indexes"):
+                return True
+        if isinstance(t, ast.Compare) and len(t.ops) == 1 and isinstance(t.ops[0], (ast.Is, ast.IsNot)) \
+                and isinstance(t.comparators[0], ast.Constant) and t.comparators[0].value is None:
+            os_ = origins(du, by_ast[id(t)], t.left) if id(t) in by_ast else []
+            return bool(os_) and all(o.kind == "expr" and isinstance(o.leaf, ast.Attribute) and o.leaf.attr == "calendar" for o in os_)
+        return False
+
+    by_ast = {}
+    for n in cfg.nodes:
+        if n.kind == "test":
+            by_ast.setdefault(id(n.ast), n)
+    falses = [n for n in cfg.nodes if n.kind == "return" and isinstance(n.ast.value, ast.Constant) and n.ast.value.value is False]
+    if len(falses) < 2:
+        raise AnalysisError("CalendarFilter.check: `return False` sites not found")
+    for r in falses:
+        in_missing = r.handler is not None and r.handler.types is not None and "MissingProperty" in r.handler.types
+        conds = [t for t, _p in cfg.required_conditions(r)]
+        extra = [src(t)[:50] for t in conds if not allowed(t)]
+        obs.append(ctx.ob(not extra and (in_missing or bool(conds)), fi.qualname, where(fi, r), "no-match decided from the parsed object",
+                          "conditions: not a calendar file / child filter does not match / missing property",
+                          "CalendarFilter.check answers False under `%s`, which is not the verdict of a child filter on the parsed calendar: "
+                          "a resource that matches the filter (e.g. text with escaped characters or folded lines) is left out"
+                          % " and ".join(extra)))
+    pm = ctx.own_method(ICAL + ".PropertyTimeRangeMatcher", "match")
+    pcfg = ctx.cfg(pm)
+    pdu = DefUse(pcfg)
+    rets = [n for n in pcfg.nodes if n.kind == "return"]
+    if not rets:
+        raise AnalysisError("PropertyTimeRangeMatcher.match has no return")
+    for r in rets:
+        v = r.ast.value
+        os_ = origins(pdu, r, v) if v is not None else []
+        compares = bool(os_) and all(o.kind == "expr" and o.leaf is not None and not isinstance(o.leaf, ast.Constant)
+                                     and any(isinstance(x, ast.Compare) for x in ast.walk(o.leaf))
+                                     and any(isinstance(x, ast.Attribute) and dotted(x) in ("self.start", "self.end") for x in ast.walk(o.leaf)) for o in os_)
+        obs.append(ctx.ob(compares, pm.qualname, where(pm, r), "prop-filter time-range is decided by comparing with start/end",
+                          "return <value> compared with self.start / self.end",
+                          "PropertyTimeRangeMatcher.match answers `%s` without comparing the value with the range: DATE values (all-day "
+                          "DTSTART, DUE;VALUE=DATE) are not datetime instances and never match" % (src(v) if v is not None else "None")))
+    return obs
